@@ -127,9 +127,11 @@ Theorem register_first : forall a xid fs r,
   ((forall b, r <> ROk b) -> filter is_try evs = [] /\ ok = false).
 Proof.
   intros a xid fs r. unfold prepare.
-  destruct r as [b| |]; simpl; (split; [reflexivity|]); (split; [reflexivity|]); split.
+  destruct r as [b| | |]; simpl; (split; [reflexivity|]); (split; [reflexivity|]); split.
   - intros b' Hb. inversion Hb. split; reflexivity.
   - intros Hn. exfalso. apply (Hn b). reflexivity.
+  - intros b' Hb. discriminate.
+  - intros _. split; reflexivity.
   - intros b' Hb. discriminate.
   - intros _. split; reflexivity.
   - intros b' Hb. discriminate.
@@ -141,7 +143,7 @@ Qed.
 Lemma prepare_events : forall a xid fs r,
   fst (prepare a true xid fs r) =
   ERegister tcc_type (a_name a) xid (app_data a fs) :: match r with ROk b => [ETry (a_name a) b] | _ => [] end.
-Proof. intros a xid fs [b| |]; reflexivity. Qed.
+Proof. intros a xid fs [b| | |]; reflexivity. Qed.
 
 Definition no_try_head (l : list pevent) : Prop := match l with ETry _ _ :: _ => False | _ => True end.
 
@@ -170,9 +172,11 @@ Proof.
   change (prepare_seq true xid ((a, fs, r) :: ps))
     with (fst (prepare a true xid fs r) ++ prepare_seq true xid ps).
   rewrite prepare_events.
-  destruct r as [b| |].
+  destruct r as [b| | |].
   - cbn [app filter is_register is_try List.length paired reply_ok flat_map fst snd].
     rewrite bytes_eqb_refl, I1, I2, I3, <- I4. repeat split; reflexivity.
+  - cbn [app filter is_register is_try List.length reply_ok flat_map fst snd].
+    rewrite (paired_reg_skip _ _ _ _ _ NH), I1, I2, I3, <- I4. repeat split; reflexivity.
   - cbn [app filter is_register is_try List.length reply_ok flat_map fst snd].
     rewrite (paired_reg_skip _ _ _ _ _ NH), I1, I2, I3, <- I4. repeat split; reflexivity.
   - cbn [app filter is_register is_try List.length reply_ok flat_map fst snd].
